@@ -103,6 +103,9 @@ type Cluster struct {
 	// BigEvery > 0: every BigEvery-th plain OK answer carries a blob of about 20 KiB (atomic).
 	BigEvery int64
 	okCount  int64
+	// Auth "" | "password" | "dse": the nodes demand authentication (PasswordAuthenticator: token -> success;
+	// DseAuthenticator: "PLAIN" -> challenge PLAIN-START -> token -> success) with AuthUser / AuthPass.
+	Auth, AuthUser, AuthPass string
 	// EvictAfter > 0: a node forgets a prepared statement after this many executions (atomic).
 	EvictAfter int64
 	// PeersDelay delays every answer to a read of system.peers (set and read atomically).
@@ -207,6 +210,8 @@ type Conn struct {
 	once        sync.Once
 	emu         sync.Mutex // orders this connection's Recv/Reply events against its Drop event
 	dead        bool
+	authStep    int
+	authComp    string
 }
 
 // emitIfOpen logs an event for this connection unless the connection has been dropped; no event
@@ -624,10 +629,35 @@ func (cn *Conn) handle(a *Attempt) {
 			}
 		}
 		cn.send(hdr, sup, 0, nil)
+	case *message.AuthResponse:
+		// (only with Cluster.Auth) the DSE authenticator wants the mechanism first and answers with a challenge
+		tokenOK := string(m.Token) == "\x00"+c.AuthUser+"\x00"+c.AuthPass
+		cn.authStep++
+		switch {
+		case c.Auth == "dse" && cn.authStep == 1:
+			if string(m.Token) == "PLAIN" {
+				cn.send(hdr, &message.AuthChallenge{Token: []byte("PLAIN-START")}, 0, nil)
+			} else {
+				cn.send(hdr, &message.AuthenticationError{ErrorMessage: "fakecql: unsupported SASL mechanism"}, 0, nil)
+			}
+		case (c.Auth == "dse" && cn.authStep == 2 || c.Auth == "password" && cn.authStep == 1) && tokenOK:
+			cn.CompleteStartup(hdr, cn.authComp, &message.AuthSuccess{})
+		default:
+			cn.send(hdr, &message.AuthenticationError{ErrorMessage: "fakecql: bad credentials"}, 0, nil)
+		}
 	case *message.Startup:
 		comp := strings.ToLower(m.Options["COMPRESSION"])
 		if d := time.Duration(atomic.LoadInt64((*int64)(&c.SlowStart))); d > 0 {
 			time.Sleep(d)
+		}
+		if c.Auth != "" {
+			cn.authStep, cn.authComp = 0, comp
+			name := "org.apache.cassandra.auth.PasswordAuthenticator"
+			if c.Auth == "dse" {
+				name = "com.datastax.bdp.cassandra.auth.DseAuthenticator"
+			}
+			cn.send(hdr, &message.Authenticate{Authenticator: name}, 0, nil)
+			return
 		}
 		cn.Version = hdr.Version
 		cn.Started = true
